@@ -1,2 +1,3 @@
 import MirosModel.Drive.Hsm
 import MirosModel.Drive.Queue
+import MirosModel.Drive.Conc
